@@ -213,7 +213,6 @@ Proof.
   intros H. pose proof (t4_holds r) as T. unfold t4_refused_inert, is_refused in T.
   apply Z.leb_le in H. rewrite H in T. cbn in T.
   apply andb_true_iff in T. destruct T as [T _].
-  apply andb_true_iff in T. destruct T as [T _].
   apply andb_true_iff in T. destruct T as [T1 T2].
   apply negb_true_iff in T1. apply negb_true_iff in T2. unfold cors_granted in T2.
   apply orb_false_iff in T2. destruct T2 as [T2 T3].
@@ -229,14 +228,23 @@ Lemma refused_changes_nothing r st :
   acao (handle r) = None /\ acah (handle r) = false /\ extra (handle r) = false.
 Proof.
   intros H. pose proof (t4_holds r) as T. unfold t4_refused_inert, is_refused in T.
-  apply Z.leb_le in H. rewrite H in T. cbn in T.
-  apply andb_true_iff in T. destruct T as [T T4].
+  assert (H' := H). apply Z.leb_le in H. rewrite H in T. cbn in T.
   apply andb_true_iff in T. destruct T as [T T3].
   apply andb_true_iff in T. destruct T as [T1 T2].
-  apply negb_true_iff in T1, T2, T3, T4. unfold cors_granted in T2.
+  apply negb_true_iff in T1, T2, T3. unfold cors_granted in T2.
   apply orb_false_iff in T2. destruct T2 as [T2 T2'].
   unfold apply_response. rewrite T1, T3, !Z.add_0_r. destruct st. repeat split; auto.
-  destruct (acao (handle r)); [discriminate|reflexivity].
+  - destruct (acao (handle r)); [discriminate|reflexivity].
+  - clear - H'. revert H'.
+    unfold handle, handle_post, handle_options, handle_ws, ws_accept, refuse.
+    destruct (r_kind r); try (cbn; intros; lia || reflexivity).
+    + destruct (r_csrf r); [destruct (negb _)|]; cbn; intros; try reflexivity; lia.
+    + destruct (r_csrf r); [|reflexivity].
+      destruct (check_origin _ _ _ _) as [[|]|e|]; try reflexivity.
+      destruct (r_origin r) as [[|c o]|]; reflexivity.
+    + destruct (effective_ws_origin r); [|reflexivity].
+      destruct (negb _); [reflexivity|].
+      destruct (check_origin _ _ _ _) as [[|]|e|]; reflexivity.
 Qed.
 
 (* ... and conversely only the three accepting outcomes change anything *)
@@ -308,6 +316,76 @@ Lemma allow_case_insensitive items n :
 Proof.
   unfold config_allow. rewrite in_map_iff. split; intros [i [A B]]; exists i; auto.
 Qed.
+
+(* ------------------------------------------ the shape of an accepted Content-Type *)
+
+Lemma hd_split1_aux sep cur s : hd [] (split1_aux sep cur s) = rev cur ++ until_c sep s.
+Proof.
+  revert cur. induction s as [|c t IH]; intros cur; cbn.
+  - now rewrite app_nil_r.
+  - destruct (c =? sep); cbn; [now rewrite app_nil_r|].
+    rewrite IH. cbn. now rewrite <- app_assoc.
+Qed.
+
+Lemma hd_split1 sep s : hd [] (split1 sep s) = until_c sep s.
+Proof. unfold split1. now rewrite hd_split1_aux. Qed.
+
+Lemma until_c_split sep s :
+  exists tail, s = until_c sep s ++ tail /\ (tail = [] \/ exists t, tail = sep :: t).
+Proof.
+  induction s as [|c t IH]; cbn.
+  - exists []. auto.
+  - destruct (c =? sep) eqn:E.
+    + apply Z.eqb_eq in E. subst. exists (sep :: t). split; [reflexivity|right; eauto].
+    + destruct IH as (tail & E1 & E2). exists tail. split; [cbn; now rewrite <- E1|assumption].
+Qed.
+
+Lemma lstrip_decomp s : s = take_space s ++ lstrip s /\ forallb py_isspace (take_space s) = true.
+Proof.
+  induction s as [|c t [IH1 IH2]]; cbn; [auto|].
+  destruct (py_isspace c) eqn:E; cbn; [|auto].
+  rewrite E, IH2. split; [now rewrite <- IH1|reflexivity].
+Qed.
+
+Lemma forallb_rev {A} (f : A -> bool) l : forallb f (rev l) = forallb f l.
+Proof.
+  induction l as [|x l IH]; cbn; [reflexivity|].
+  rewrite forallb_app, IH. cbn. rewrite andb_true_r. apply andb_comm.
+Qed.
+
+Lemma strip_decomp s :
+  exists w1 w2, s = w1 ++ strip s ++ w2 /\
+                forallb py_isspace w1 = true /\ forallb py_isspace w2 = true.
+Proof.
+  destruct (lstrip_decomp s) as [E1 F1].
+  destruct (lstrip_decomp (rev (lstrip s))) as [E2 F2].
+  exists (take_space s), (rev (take_space (rev (lstrip s)))).
+  split; [|split; [assumption|now rewrite forallb_rev]].
+  unfold strip, rstrip. rewrite <- rev_app_distr, <- E2, rev_involutive. exact E1.
+Qed.
+
+(* T1, shape form: with protection on, a POST is executed only if its Content-Type value is
+   blanks* "application/json" blanks* followed by nothing or by ";..." - the literal media
+   type, case-sensitively, and nothing else in front of the first ";" *)
+Lemma post_gate_shape r :
+  r_kind r = Post -> r_csrf r = true -> reaches_core (handle r) = true ->
+  exists v w1 w2 tail,
+    r_ctype r = Some v /\ v = w1 ++ app_json ++ w2 ++ tail /\
+    forallb py_isspace w1 = true /\ forallb py_isspace w2 = true /\
+    (tail = [] \/ exists t, tail = 59 :: t).
+Proof.
+  intros K C H. pose proof (post_gate r K C H) as M. unfold media_type in M.
+  destruct (r_ctype r) as [v|]; [|discriminate].
+  rewrite hd_split1 in M.
+  destruct (until_c_split 59 v) as (tail & E & T).
+  destruct (strip_decomp (until_c 59 v)) as (w1 & w2 & D & F1 & F2).
+  exists v, w1, w2, tail. rewrite M in D. repeat split; auto.
+  rewrite E at 1. rewrite D. now rewrite <- !app_assoc.
+Qed.
+
+Example nonvac_post_gate_shape :
+  exists v, media_type (Some v) = app_json /\ v <> app_json.
+Proof. exists ([32; 160] ++ app_json ++ [9; 59; 120]). split; [reflexivity|discriminate]. Qed.
 
 (* ------------------------------------- from the config text to the allow-list *)
 
